@@ -430,8 +430,13 @@ class Response(_SansIOResponse):
             The ``Content-Length`` header is set.
         """
         # Always freeze the encoded response body, ignore
-        # implicit_sequence_conversion and direct_passthrough.
+        # implicit_sequence_conversion and direct_passthrough. As in
+        # make_sequence, the close method of a consumed iterable has to be
+        # called when the response is torn down.
+        close = getattr(self.response, "close", None)
         self.response = list(self.iter_encoded())
+        if close is not None:
+            self.call_on_close(close)
         self.headers["Content-Length"] = str(sum(map(len, self.response)))
         self.add_etag()
 
